@@ -182,7 +182,9 @@ def run(ctx):
 
 
 # sensitivity pack (thorough tier): each seeded edit must be reported by the named rule instance
-MUTANTS = [{'name': 'height-tags-swapped', 'file': 'crates/ordinals/src/runestone.rs', 'old': 'Tag::HeightStart.encode_option(terms.height.0, &mut payload);\n        Tag::HeightEnd.encode_option(terms.height.1, &mut payload);', 'new': 'Tag::HeightStart.encode_option(terms.height.1, &mut payload);\n        Tag::HeightEnd.encode_option(terms.height.0, &mut payload);', 'expect': ('R25.1', 'encipher', 'Tag::HeightEnd')},
+MUTANTS = [{'name': 'seeded-C25-a', 'patch': 'C25-a/patch.diff', 'expect': ('R25.1', 'Runestone::encipher', 'sorted by id')},
+           {'name': 'seeded-C25-b', 'patch': 'C25-b/patch.diff', 'expect': ('R25.2', 'Runestone::decipher', 'late flaws')},
+           {'name': 'height-tags-swapped', 'file': 'crates/ordinals/src/runestone.rs', 'old': 'Tag::HeightStart.encode_option(terms.height.0, &mut payload);\n        Tag::HeightEnd.encode_option(terms.height.1, &mut payload);', 'new': 'Tag::HeightStart.encode_option(terms.height.1, &mut payload);\n        Tag::HeightEnd.encode_option(terms.height.0, &mut payload);', 'expect': ('R25.1', 'encipher', 'Tag::HeightEnd')},
            {'name': 'flaw-does-not-stop-parsing', 'file': 'crates/ordinals/src/runestone/message.rs', 'old': '            flaw.get_or_insert(Flaw::EdictRuneId);\n            break;', 'new': '            flaw.get_or_insert(Flaw::EdictRuneId);\n            continue;', 'expect': ('R25.2', 'from_integers', 'EdictRuneId')}]
 
 
